@@ -79,6 +79,12 @@ CHECKS = {
    note="Trusted: TLC, the counting reader, the golden file produced from the pinned tree. decode(encode(m)) = m over all values is encode/decode fidelity, which this family does not enumerate.",
    technique="TLA+ spec Codec as case-space + oracle; enumerated frame classes and golden encodings replayed on the real codec, judged by TLC (Trace_Codec)",
    design="4 (C17), 3.11"),
+ "C18": dict(
+   level="exploration",
+   text="ConfigFlow fixes per proxy type the set of fields the server acts on, the domain / port validation rules and the strict-mode rule; generated definitions of all 8 proxy types flow through the real Complete / Validate / MarshalToMsg / codec / NewProxyConfigurerFromMsg pipeline and TLC checks that every server-relevant field arrives equal; generated documents are loaded as TOML, YAML and JSON (equal structures), unknown fields at five depths are loaded in both strict modes, custom-domain lists and ports are validated, literals and a template are round-tripped; all observations are judged by TLC against the specification (Trace_ConfigFlow). Declared exploration: values are generated, not enumerated.",
+   note="Trusted: TLC, the driver's field-by-field comparison (empty and absent containers are treated alike). Command-line flags, legacy INI conversion and third-party parser fidelity beyond the generated documents are not covered.",
+   technique="TLA+ spec ConfigFlow as case-space + oracle; generated configurations replayed on the real config pipeline, judged by TLC (Trace_ConfigFlow)",
+   design="4 (C18), 3.11"),
 }
 
 hooks_commits = subprocess.run("git -C /repo log --format=%h --grep='^verif:' --reverse", shell=True, capture_output=True, text=True).stdout.split()
